@@ -125,6 +125,7 @@ var noEffectPrefixes = []string{
 	"math.",
 	"(*sync.Cond).Broadcast", "sync.Cond.Broadcast", "sync.Cond.Signal", "sync.NewCond",
 	"github.com/lindb/common/pkg/timeutil.Now",
+	"github.com/google/uuid.",
 	"github.com/lindb/common/pkg/timeutil.FormatTimestamp",
 	"github.com/lindb/lindb/pkg/timeutil.FormatTimestamp",
 }
